@@ -7,7 +7,10 @@ import (
 	"github.com/ipld/go-ipld-prime/node/basicnode"
 	"github.com/ipld/go-ipld-prime/zzverif/ref/gen"
 	"github.com/ipld/go-ipld-prime/zzverif/ref/nodecheck"
+	"github.com/ipld/go-ipld-prime/zzverif/ref/refschema"
 	"github.com/ipld/go-ipld-prime/zzverif/ref/refval"
+	"github.com/ipld/go-ipld-prime/zzverif/schemas"
+	"github.com/ipld/go-ipld-prime/zzverif/typed"
 )
 
 func isRepeated(err error) bool {
@@ -195,6 +198,69 @@ func HWrongKind() {
 		}
 	} else {
 		nd.Assert(err != nil, "an assignment of a kind the builder cannot hold is reported by an error from that call")
+	}
+	nd.Reach("end")
+}
+
+// HTypedScript: the same protocol on typed struct assemblers (reflection binding and generated
+// code): fields assembled in order with a repeat of an earlier field injected after any of them,
+// by either route; the rejected call must leave no visible side effect.
+func HTypedScript() {
+	engine := nd.Choose("engine", 3)
+	t := schemas.ByName("OptNull")
+	g := &refschema.G{}
+	v := g.Gen(t)
+	level := nd.Choose("level", 2) // 0: type level, 1: representation level (map)
+	tree := v
+	proto := typed.Proto(engine, "OptNull").Type
+	if level == 1 {
+		tree = refschema.Repr(t, v)
+		proto = typed.Proto(engine, "OptNull").Repr
+	}
+	nb := proto.NewBuilder()
+	ok := true
+	nd.NoPanic("script", func() {
+		ma, err := nb.BeginMap(int64(len(tree.L)))
+		nd.Assert(err == nil, "BeginMap")
+		if err != nil {
+			ok = false
+			return
+		}
+		injectAfter := nd.Choose("injectafter", len(tree.L)+1) // == len: no injection
+		var done []string
+		for i, c := range tree.L {
+			if c.K == refval.Absent {
+				continue
+			}
+			va, err := ma.AssembleEntry(tree.Keys[i])
+			nd.Assert(err == nil, "a field not yet assembled is accepted")
+			if err != nil {
+				ok = false
+				return
+			}
+			nd.Assert(typed.Assign(va, c) == nil, "its value is accepted")
+			done = append(done, tree.Keys[i])
+			if i == injectAfter {
+				rep := done[nd.Choose("repeat", len(done))]
+				var e2 error
+				if nd.Choose("reproute", 2) == 0 {
+					_, e2 = ma.AssembleEntry(rep)
+				} else {
+					e2 = ma.AssembleKey().AssignString(rep)
+				}
+				nd.Assert(e2 != nil, "a repeated field is rejected when the key is supplied")
+				nd.Reach("rejected")
+			}
+		}
+		nd.Assert(ma.Finish() == nil, "Finish succeeds after a rejected repeat")
+	})
+	if !ok {
+		return
+	}
+	var n datamodel.Node
+	nd.NoPanic("Build", func() { n = nb.Build() })
+	if n != nil {
+		nd.Assert(refval.Equal(refval.Of(n), v), "the node holds exactly the accepted fields: the rejected call left no visible side effect")
 	}
 	nd.Reach("end")
 }
